@@ -4,6 +4,8 @@ import (
 	"fmt"
 	"go/types"
 	"strings"
+
+	"golang.org/x/tools/go/ssa"
 )
 
 // Env evaluates contract expressions in a symbolic state.
@@ -271,6 +273,12 @@ func (x *Exec) eval(env *Env, e Expr) (Value, types.Type) {
 		return x.valueIte(c, at, x.asPlainPure(a), x.asPlainPure(b)), at
 	case *EQuant:
 		ch := env.child()
+		if env.oldVars != nil {
+			ch.oldVars = map[string]Value{}
+			for k, v := range env.oldVars {
+				ch.oldVars[k] = v
+			}
+		}
 		var bound []*Term
 		var guards []*Term
 		for _, v := range e.Vars {
@@ -284,6 +292,9 @@ func (x *Exec) eval(env *Env, e Expr) (Value, types.Type) {
 				}
 				val, _ := x.rebuild(t, ts)
 				ch.bind(v.Name, val, t)
+				if ch.oldVars != nil {
+					ch.oldVars[v.Name] = val
+				}
 				continue
 			}
 			bv := mkVar(v.Name+"!q", scalarSort(t))
@@ -291,9 +302,11 @@ func (x *Exec) eval(env *Env, e Expr) (Value, types.Type) {
 			var val Value = bv
 			if pt, ok := t.Underlying().(*types.Pointer); ok {
 				val = &PtrV{Kind: PRef, Ref: bv, Elem: pt.Elem()}
-				guards = append(guards, mkCmp(">=", bv, mkInt(0)))
 			}
 			ch.bind(v.Name, val, t)
+			if ch.oldVars != nil {
+				ch.oldVars[v.Name] = val
+			}
 		}
 		// facts assumed while evaluating the body (type facts of loads) must not leak bound variables into the path condition
 		saved := env.st.pc
@@ -303,10 +316,8 @@ func (x *Exec) eval(env *Env, e Expr) (Value, types.Type) {
 		var keep []*Term
 		for _, f := range extra {
 			if mentionsAny(f, bound) {
-				if e.Forall {
-					// a type fact about a bound variable: usable as a hypothesis inside the quantifier
-					guards = append(guards, f)
-				}
+				// a fact about a bound variable (type facts of loads under the binder) cannot be asserted outside the quantifier;
+				// as a guard it would weaken quantified hypotheses, so it is dropped (fewer assumptions: sound)
 				continue
 			}
 			keep = append(keep, f)
@@ -532,16 +543,34 @@ func (x *Exec) evalCall(env *Env, e *ECall) (Value, types.Type) {
 			panic("contract: fresh() outside a postcondition")
 		}
 		return mkCmp(">", x.valRef(env.st, v), env.old.top), boolT
-	case "allocated": // allocated(p): p existed at the old() point
+	case "allocated": // allocated(p): p exists in the state the expression is evaluated in (inside old(): at function entry)
 		v, _ := x.eval(env, e.Args[0])
 		top := env.st.top
-		if env.old != nil {
-			top = env.old.top
+		if snap, ok := env.mem.(*HeapSnap); ok {
+			top = snap.top
 		}
 		return mkCmp("<=", x.valRef(env.st, v), top), boolT
 	case "ref": // ref(p): the reference as an integer (for ghost arithmetic)
 		v, _ := x.eval(env, e.Args[0])
 		return x.valRef(env.st, v), intT
+	case "addrof":
+		name := e.TypeArgs[0]
+		var g *ssa.Global
+		if i := strings.LastIndex(name, "."); i >= 0 {
+			for path, sp := range x.w.SSAPkg {
+				if path == name[:i] || shortPkg(path) == name[:i] || sp.Pkg.Name() == name[:i] {
+					if gg, ok := sp.Members[name[i+1:]].(*ssa.Global); ok {
+						g = gg
+					}
+				}
+			}
+		} else {
+			g = x.lookupGlobal(env, name)
+		}
+		if g == nil {
+			panic("contract: addrof: no package-level variable " + name)
+		}
+		return &PtrV{Kind: PRef, Ref: x.globalRef(g), Elem: g.Type().(*types.Pointer).Elem(), Global: g}, g.Type()
 	case "errmsg":
 		v, _ := x.eval(env, e.Args[0])
 		return ufApp(&UF{"err_Error", []Sort{SInt}, SStr}, v.(*Term)), types.Typ[types.String]
@@ -564,11 +593,17 @@ func (x *Exec) evalCall(env *Env, e *ECall) (Value, types.Type) {
 		penv := *env
 		penv.pkgPath = f.PkgPath
 		rt := penv.resolveType(f.Ret)
-		if f.Body != nil && f.Decreases == nil {
+		if f.Body != nil && !f.Recursive {
 			return x.evalPredLike(env, e, f.Params, f.Body, f.PkgPath, rt)
 		}
 		var args []*Term
 		var sorts []Sort
+		for _, rd := range f.Reads {
+			name, srt := x.readsHeap(&penv, rd)
+			h := env.mem.getHeap(name, srt)
+			args = append(args, h)
+			sorts = append(sorts, srt)
+		}
 		for _, a := range e.Args {
 			v, _ := x.eval(env, a)
 			for _, t := range flatten(x.asPlainPure(v)) {
@@ -634,4 +669,88 @@ func (x *Exec) evalPredLike(env *Env, e *ECall, params []Param, body Expr, pkgPa
 	}
 	v, _ := x.eval(inner, body)
 	return v, rt
+}
+
+// readsHeap resolves a `reads Type.field` entry to the heap array it denotes.
+func (x *Exec) readsHeap(env *Env, rd string) (string, Sort) {
+	i := strings.LastIndex(rd, ".")
+	T := env.resolveType(rd[:i])
+	st, ok := isStructType(T)
+	if !ok {
+		panic("reads: not a struct type: " + rd)
+	}
+	idx := fieldIndex(st, rd[i+1:])
+	if idx < 0 {
+		panic("reads: no such field: " + rd)
+	}
+	cs := comps(st.Field(idx).Type())
+	if len(cs) != 1 {
+		panic("reads: only scalar fields are supported: " + rd)
+	}
+	return fieldHeapName(T, idx, cs[0].Suffix), arrSort(SInt, cs[0].Sort)
+}
+
+// boundMem is a memory view in which the heaps a recursive spec function reads are universally quantified variables.
+type boundMem struct{ m map[string]*Term }
+
+func (b *boundMem) getHeap(name string, sort Sort) *Term {
+	if t, ok := b.m[name]; ok {
+		return t
+	}
+	panic("recursive spec function reads heap " + name + " which is not declared in its reads clause")
+}
+
+// recSpecAxioms: the unfolding axiom of every recursive spec function.
+func (x *Exec) recSpecAxioms() []*Term {
+	var out []*Term
+	var names []string
+	for n, f := range x.sp.SpecFns {
+		if f.Recursive && f.Body != nil {
+			names = append(names, n)
+		}
+	}
+	sortStrings(names)
+	for _, n := range names {
+		f := x.sp.SpecFns[n]
+		st := &State{heap: map[string]*Term{}, top: mkVar("top0", SInt)}
+		env := x.newEnv(st, f.PkgPath)
+		bm := &boundMem{m: map[string]*Term{}}
+		var bound []*Term
+		var args []Expr
+		for _, rd := range f.Reads {
+			name, srt := x.readsHeap(env, rd)
+			hv := mkVar("H!"+smtIdent(name), srt)
+			bm.m[name] = hv
+			bound = append(bound, hv)
+		}
+		env.mem = bm
+		for _, p := range f.Params {
+			t := env.resolveType(p.Type)
+			bv := mkVar(p.Name+"!r", scalarSort(t))
+			bound = append(bound, bv)
+			var val Value = bv
+			if pt, ok := t.Underlying().(*types.Pointer); ok {
+				val = &PtrV{Kind: PRef, Ref: bv, Elem: pt.Elem()}
+			}
+			env.bind(p.Name, val, t)
+			args = append(args, &EIdent{p.Name})
+		}
+		lhs, _ := x.evalCall(env, &ECall{Fn: f.Name, Args: args})
+		saved := st.pc
+		rhs, _ := x.eval(env, f.Body)
+		st.pc = saved
+		eq := valueEq(x.asPlainPure(lhs), x.asPlainPure(rhs))
+		out = append(out, mkForall(bound, eq, flatten(x.asPlainPure(lhs))...))
+	}
+	return out
+}
+
+func sortStrings(s []string) {
+	for i := 0; i < len(s); i++ {
+		for j := i + 1; j < len(s); j++ {
+			if s[j] < s[i] {
+				s[i], s[j] = s[j], s[i]
+			}
+		}
+	}
 }
